@@ -73,7 +73,9 @@ META = {
         "CG: single systems (b of shape (n,1) or (n,)), as documented",
         "LSTSQ with an SVD driver: a negative rcond means the driver's machine precision, measured as eps/2 in gelsd and eps in "
         "gelss (parameter `mach` of lstsqCutoff); the default driver gelsy decides the rank by incremental condition estimation, "
-        "not by singular values (wrapper correspondence + certificate only)",
+        "not by singular values: its rank decision is not modelled; GIVEN the rank, its result is the model lstsqForwardCod on a "
+        "complete orthogonal decomposition (theorems lstsq_cod_forward_minnorm(_exact); stream ls.cod on exact-rank systems up to "
+        "24 x 24, cond <= 1e6; binding on full column rank, informational on rank-deficient systems like ls.ref)",
     ],
     "partial": [
         "IEEE rounding is not modelled: accuracy of the float solvers is decided by measured agreement with the exact "
@@ -636,6 +638,20 @@ def check_ls(ctx: Ctx, case, lines_out=None) -> bool:
                                   f"c10.lstsqsvd {m} {n} {Ss.numel()} {0 if rc_ is None else 1} {to_wire(float(rc_ or 0.0))} "
                                   f"{to_wire(eps)} {to_wire(eps / 2 if sol.driver == 'gelsd' else eps)} {wl(Af[k])} {wl(Us)} {wl(Ss)} "
                                   f"{wl(Vhs.mT)} {wl(bf[k])}"))
+            if name in ("LSTSQ", "LSTSQ:gelsy") and Bi is not None and 0 < r and max(m, n) <= 24 and \
+                    case["items"][k].get("kind") in ("int", "float", "diag") and not case["items"][k].get("near") and \
+                    rec["sr"] > 0 and rec["s1"] / rec["sr"] <= 1e6:
+                # (pass 10) the default driver gelsy unfolded one level: a complete orthogonal decomposition A = Q T Z^T of the
+                # exact-rank-r matrix is the contract parameter (built here from two range finders: Q = orth(A G), Z = orth(A^T H),
+                # T = Q^T A Z — invertible, not triangular; the theorem needs no more), x = Z T^-1 Q^T b is the Lean model's
+                # (`lstsqForwardCod`, theorem lstsq_cod_forward_minnorm_exact)
+                gq = gen(case["items"][k]["seed"] + 77)
+                Qc = torch.linalg.qr(Af[k] @ torch.randn(n, r, generator=gq, dtype=torch.float64)).Q
+                Zc = torch.linalg.qr(Af[k].T @ torch.randn(m, r, generator=gq, dtype=torch.float64)).Q
+                Tc = Qc.T @ Af[k] @ Zc
+                Tic = torch.linalg.inv(Tc)
+                Tic = Tic @ (2 * torch.eye(r, dtype=torch.float64) - Tc @ Tic)      # one Newton step: T Ti = 1 to round-off
+                lines_out.append((case, rec, "cod", f"c10.lstsqcod {m} {n} {r} {wl(Af[k])} {wl(Qc)} {wl(Zc)} {wl(Tc)} {wl(Tic)} {wl(bf[k])}"))
             if name in HERM_CFG and m == n and n > 0:
                 # hermitian=True: the kernel is eigh of ONE triangle (model pinvForwardEigh, theorem pinv_hermitian_forward_minnorm)
                 lam_, Q_ = torch.linalg.eigh(Af[k])
@@ -777,6 +793,24 @@ def judge_ls(ctx: Ctx, case, rec, what, rep):
                          f"{float((rec['A'] @ rec['x'] - rec['b']).norm()):.3e} vs {float((rec['A'] @ xm - rec['b']).norm()):.3e}; "
                          f"A[0,:6] = {rec['A'][0, :6].tolist()}, b[:6] = {rec['b'][:6].tolist()}" + sfx(case))
             ctx.disagree(tag, cc, f"|x - x_model| = {d:.3e} > {tol:.3e}")
+    elif what == "cod":
+        v = nums(rep)
+        xm, (cq, cz, ct, ca) = torch.tensor(v[:n], dtype=torch.float64), v[n:]
+        # contract of the decomposition (hypotheses of the theorem), re-measured exactly; it is built by this harness, so a miss
+        # only skips the case
+        if not (max(cq, cz) <= 1e-10 and ct <= 1e-8 and ca <= 1e-10 * (s1 + 1e-300)):
+            ctx.count("ls.cod.contract-missed")
+            return
+        bn_ = float(rec["b"].norm())
+        tol = 64 * eps * dim * kap * (float(xm.norm()) + bn_ / sr)
+        d = float((rec["x"] - xm).norm())
+        unique = r == n       # (as for `ref`: minimum norm is demanded of PINV only; on rank-deficient systems this is information)
+        ctx.count("ls.cod" if unique else "ls.cod.info")
+        stat("ls.cod." + dtype + ("" if unique else ".info"), d / (tol + 1e-300))
+        if unique and not (d <= tol + 1e-300):
+            ctx.fail(cc, f"ls-cod: {name} differs from Z T^-1 Q^T b (complete orthogonal decomposition of the full-column-rank A) by "
+                         f"{d:.3e} > {tol:.3e} ({m}x{n}, cond {kap:.1e}, {dtype})" + sfx(case))
+            ctx.disagree("ls.cod", cc, f"|x - x_model| = {d:.3e} > {tol:.3e}")
     elif what == "eigh":
         v = nums(rep)
         cut, xm, (cq, ca) = v[0], torch.tensor(v[1:1 + n], dtype=torch.float64), v[1 + n:]
